@@ -1,5 +1,5 @@
 SPECIFICATION Spec
 CONSTANTS
-  EnumLookup = "value-first"
-  Variant = "orig"
+  EnumLookup = "name-first"
+  Variant = "fixed"
 INVARIANT P_ShapeRoundTrips
